@@ -1,12 +1,13 @@
 #!/bin/bash
-# harvest.sh <diff> <name> <ID> : apply a patch, run the quick check, copy the first (shrunk) replay into corpus/<ID>/<name>.json, revert
+# harvest.sh <diff> <name> <ID> : run the quick check against a scratch worktree with the patch applied and copy the first (shrunk) replay into corpus/<ID>/<name>.json
 diff=$(realpath "$1"); name=$2; id=$3
-git -C /repo diff --quiet || { echo "/repo dirty"; exit 3; }
-git -C /repo apply "$diff" || exit 3
-trap 'git -C /repo checkout -- . ; git -C /repo clean -fdq' EXIT
+wt=$(mktemp -d /tmp/hv-XXXXXX); rmdir $wt
+git -C /repo worktree add --detach -q $wt HEAD || exit 3
+trap 'git -C /repo worktree remove --force '$wt' >/dev/null 2>&1; git -C /repo worktree prune' EXIT
+git -C $wt apply "$diff" || exit 3
 cd /verif
-out=$(VERIF_PAR=4 ./check $id quick 2>&1)
+out=$(VERIF_REPO=$wt VERIF_PAR=4 ./check $id quick 2>&1)
 path=$(echo "$out" | grep -m1 '^VIOLATION' | sed 's/.*replay=//')
-if [ -n "$path" ] && [ -f "$path" ] && [[ "$path" == *.json ]]; then
+if [ -n "$path" ] && [ -f "$path" ] && [[ "$path" == *.json ]] && [[ "$path" != */corpus/* ]]; then
   mkdir -p corpus/$id; cp "$path" corpus/$id/$name.json; echo "harvested corpus/$id/$name.json ($(wc -c < "$path") bytes)"
-else echo "nothing harvested for $name/$id: $(echo "$out" | head -2)"; fi
+else echo "nothing new harvested for $name/$id: $(echo "$out" | grep -m1 -E '^(VIOLATION|OK|INCONCLUSIVE)' | cut -c1-120)"; fi
